@@ -425,6 +425,12 @@ class _State:
                 # ndarray augmented assignment works in place
                 self.event("elem-store", cur, s, f"{src(t)} {type(s.op).__name__}= ... (in-place array operator)")
                 env[t.id] = cur
+            elif cur is not None and cur.kind == "unknown" and isinstance(s.op, (ast.BitAnd, ast.BitOr, ast.BitXor)) \
+                    and any(o == "SELF" or o.startswith("ARG:") for o in cur.alias):
+                # mask &= other on a value handed in by the caller: for an array (the only kind of argument the bitwise
+                # operators are used on here) this works in place, on the caller's object
+                self.event("elem-store", cur, s, f"{src(t)} {type(s.op).__name__}= ... (in-place operator on an argument that may be an array)")
+                env[t.id] = cur
             elif cur is not None and cur.kind == "list":
                 self.event("list-write", cur, s, f"{src(t)} += ...")
                 env[t.id] = AV("list", cur.alias, elem=join(cur.elem, content(v)))
@@ -1621,7 +1627,11 @@ class _State:
         if k == "func":
             return AV("unknown", F0)
         # unknown receiver, unknown method
-        if name in ("copy", "deepcopy"):
+        if name == "copy":
+            # X.copy() of something of unknown kind that belongs to the caller: a new outer object whose contents may
+            # still be shared (dict.copy / list.copy are shallow); only the deepcopy rules read the flag
+            return AV("unknown", F0, flags={"shallow"} if all_alias(recv) else F0)
+        if name == "deepcopy":
             return AV("unknown", F0)
         if name in ("items",):
             e = content(recv) or AV("unknown", recv.alias)
